@@ -12,7 +12,7 @@ class C11(Check):
     prop = "C11"
     required_theorems = [
         # one relaying node, every topology / connectivity / origin / object zone / iteration order
-        "only_entitled", "no_echo", "single_entry", "only_master_crosses", "logged_not_dropped",
+        "only_entitled", "no_echo", "single_entry", "only_master_crosses", "logged_not_dropped", "logged_not_dropped_global",
         "reachable_only", "no_duplicate_send", "origin_zone_copied", "relay_meets_spec",
         "logged_not_dropped_three_endpoints_counterexample",
         # the cluster
@@ -182,7 +182,7 @@ class C11(Check):
                     if key not in seen_t:
                         seen_t.add(key)
                         f.write(l + "\n")
-        sim = self._driver(driver, topo_file, ["sim", str(seed)])
+        sim = self._driver(driver, topo_file, ["sim", str(seed), "60" if tier == "thorough" else "12"])
         sim_stats = self._stats(sim, "SIMSTATS")
         if sim_stats is None:
             raise core.TieBroken("driver:c11:no-simstats", "\n".join(sim[-20:]))
@@ -207,15 +207,15 @@ class C11(Check):
                     "plus one global zone, 1-2 endpoints per zone (all count vectors up to 3 zones (thorough: 4), all-two plus seeded ones "
                     "above), endpoint names dealt to zones in ascending / descending / seeded order, Endpoint objects allocated in "
                     "ascending / descending / seeded order (std::set iteration order); per topology one process, per node identity (all "
-                    "of them; quick: 4 seeded ones from 4 zones up) the full grid {connectivity vectors of the directly related endpoints} "
+                    "of them; quick: 5 seeded ones for 5 zones) the full grid {connectivity vectors of the directly related endpoints} "
                     "x {null origin, origin without client, anonymous client, every other endpoint as client with the FromZone values "
-                    "MessageHandler can produce} x {every zone incl. the global one, no object} when it has at most 700 (thorough 6000) "
+                    "MessageHandler can produce} x {every zone incl. the global one, no object} when it has at most 2500 (thorough 20000) "
                     "points, else that many seeded samples; unrelated endpoints' connectivity, one/two connections per endpoint, object kind "
                     "(Zone itself / User with zone attribute / none) and the log flag seeded; 1/8 extra cases with origins MessageHandler "
                     "cannot produce; plus seeded topologies outside the property's quantifier (three endpoints per zone, several global "
                     "zones, a global zone with endpoints). evaluations = RelayMessage calls; a call is non-trivial when something was sent, "
                     "skipped or persisted; distinct by (topology, node, call) text (counted by the Lean driver). Then the network model is "
-                    "run on every generated topology (all originators x object zones x 6 connectivity patterns x 4 delivery orders).")
+                    "run on every generated topology (all originators x object zones x 12 (thorough 60) seeded symmetric connectivity patterns x 4 delivery orders, every node iterating the endpoint sets in its own order; completeness is checked whenever the pattern meets the property's connectivity hypothesis).")
         rs = [l for l in all_lines if l.startswith("R ")]
         ts = [l for l in all_lines if l.startswith("T ")]
         res.samples = [ts[len(ts) // 2]] + rs[len(rs) // 2: len(rs) // 2 + 3] + ["..."] + [ts[-1]] + rs[-2:]
